@@ -314,8 +314,9 @@ def gen_device(rng) -> dict:
     platform = rng.choice(["ios", "nxos"])
     groups = {}
     group_texts = {}
+    gnames = rng.choice([["G1", "G2", "G3"], ["G1", "G2", "G3"], ["NET:DMZ", "SRV/WEB+DB", "NET@EDGE"], ["anycast-dns", "g.1", "Web_Srv"]])
     for n in range(rng.randint(0, 3)):
-        name = f"G{n + 1}"
+        name = gnames[n]
         cubes = []
         texts = []
         for _ in range(rng.randint(1, 6)):
@@ -340,6 +341,8 @@ def gen_device(rng) -> dict:
         name = rng.choice(["A", "EDGE", "acl", "V4", "x-"]) + str(n + 1)
         if acls and rng.random() < 0.3:  # a name that has another ACL's name as a proper prefix
             name = rng.choice(acls)["name"] + rng.choice(["0", "_V2", "-b"])
+        if acls and rng.random() < 0.15:  # a name that differs from another ACL's name in letter case only
+            name = rng.choice(acls)["name"].swapcase()
         while name in [a["name"] for a in acls]:
             name += "z"
         acl_type = "standard" if platform == "ios" and rng.random() < 0.2 else "extended"
@@ -357,11 +360,11 @@ def gen_device(rng) -> dict:
             elif acl_type == "standard":
                 entries.append(pre + rng.choice(["permit", "deny"]) + " " + rng.choice(["any", f"host 10.{n}.{idx}.1", f"10.{n}.{idx}.0 0.0.0.255"]))
             elif roll < 0.45:
-                gname = rng.choice(["G1", "G2", "G3", "GX"])
+                gname = rng.choice(gnames + ["GX"])
                 other = grammar.gen_addr(rng, platform, allow_group=False, foreign=False, max_k=2)["text"]
                 pair = (f"{word} {gname}", other) if rng.random() < 0.5 else (other, f"{word} {gname}")
                 if rng.random() < 0.2:
-                    pair = (f"{word} {gname}", f"{word} {rng.choice(['G1', 'G2'])}")
+                    pair = (f"{word} {gname}", f"{word} {rng.choice(gnames[:2])}")
                 entries.append(f"{pre}{rng.choice(['permit', 'deny'])} {rng.choice(['ip', 'tcp', 'udp'])} {pair[0]} {pair[1]}")
             else:
                 if rng.random() < 0.15:  # ports whose name depends on the software version
@@ -379,6 +382,10 @@ def gen_device(rng) -> dict:
         acls.append({"name": name, "type": acl_type, "entries": entries})
     intfs = {}
     acl_names = [a["name"] for a in acls] + ["UNDEFINED"]
+    if acls and rng.random() < 0.3:  # a binding to an undefined list whose name differs from a defined one in letter case only
+        other_case = rng.choice(acls)["name"].swapcase()
+        if other_case not in acl_names:
+            acl_names.append(other_case)
     for n in range(rng.randint(0, 5)):
         iname = rng.choice(["Ethernet1/", "GigabitEthernet0/0/", "Vlan", "port-channel"]) + str(n + 1)
         if rng.random() < 0.15:  # headers that carry more than the name
